@@ -1343,9 +1343,11 @@ def search(ctx, failures):
         try:
             exp = expected_of(v, iter(o['tags']))
         except Exception:
-            continue
+            exp = None          # no expectation can be formed (unbalanced markers, unsupported objects): the bytes must still be OSC 1.0
         try:
             dec = osc10.decode(dgram)
+            if exp is None:
+                continue
             ok = same(dec, exp)
             why = 'decodes to different values'
         except osc10.Osc10Error as e:
